@@ -227,35 +227,37 @@ def loop_rules(ctx, crate, body):
 
 
 def dollar_rule(ctx, crate):
-    body = crate.fn("shell::expand_one_env")
-    if not ctx.require(body is not None, "R03-4", "R03-4|anchor", "shell::expand_one_env not found"):
+    top = crate.fn("shell::expand_one_env")
+    if not ctx.require(top is not None, "R03-4", "R03-4|anchor", "shell::expand_one_env not found"):
         return
-    ctx.analysed(body)
+    ctx.analysed(top)
     want = {"?": ("previous_status", lambda e: flow.is_field_named(e, "previous_status")),
             "$": ("getpid()", lambda e: flow.is_call_to(e, "getpid"))}
     found = {}
-    for bb in sorted(body.reachable):
-        for tgt, atom, val in body.switch_edges(bb):
-            g = str_eq_atom(atom, val)
-            if g is None or not g[3] or g[2] not in want:
-                continue
-            dom = flow.edge_dominated(body, bb, tgt)
-            srcs = []
-            for x in sorted(dom):
-                t = body.term(x)
-                if t["k"] == "call" and last_seg(body.callee(t)) in ("new_display", "new_debug"):
-                    srcs.append(body.call_args(x)[0])
-            name, pred = want[g[2]]
-            ok = any(flow.backward(body, s, pred) is not None for s in srcs)
-            other = [k for k in want if k != g[2]]
-            crossed = any(flow.backward(body, s, want[o][1]) is not None for s in srcs for o in other)
-            found[g[2]] = True
-            ctx.ob("R03-4", body.path, "$%s formats %s" % (g[2], name), ok and not crossed,
-                   key="R03-4|%s|$%s" % (body.path, g[2]), where=body.loc(bb), crate=crate.kind,
-                   detail="formatted values: %s" % "; ".join(render(s)[:60] for s in srcs))
+    # the arms may sit in a closure of the function (Regex::replace_all(text, |caps| ..))
+    for body in [top] + crate.closures_of(top.path):
+        for bb in sorted(body.reachable):
+            for tgt, atom, val in body.switch_edges(bb):
+                g = str_eq_atom(atom, val)
+                if g is None or not g[3] or g[2] not in want:
+                    continue
+                dom = flow.edge_dominated(body, bb, tgt)
+                srcs = []
+                for x in sorted(dom):
+                    t = body.term(x)
+                    if t["k"] == "call" and last_seg(body.callee(t)) in ("new_display", "new_debug"):
+                        srcs.append(body.call_args(x)[0])
+                name, pred = want[g[2]]
+                ok = any(flow.backward(body, s, pred) is not None for s in srcs)
+                other = [k for k in want if k != g[2]]
+                crossed = any(flow.backward(body, s, want[o][1]) is not None for s in srcs for o in other)
+                found[g[2]] = True
+                ctx.ob("R03-4", top.path, "$%s formats %s" % (g[2], name), ok and not crossed,
+                       key="R03-4|%s|$%s" % (top.path, g[2]), where=body.loc(bb), crate=crate.kind,
+                       detail="formatted values: %s" % "; ".join(render(s)[:60] for s in srcs))
     for k in want:
-        ctx.require(k in found, "R03-4", "R03-4|%s|arm|%s" % (body.path, k),
-                    "no branch on key == \"%s\" in expand_one_env" % k, body.path)
+        ctx.require(k in found, "R03-4", "R03-4|%s|arm|%s" % (top.path, k),
+                    "no branch on key == \"%s\" in expand_one_env" % k, top.path)
 
 
 def exit_rules(ctx, crate):
